@@ -10,8 +10,8 @@ namespace GcpVerif.GME
 /-- states reachable through the API (construction = the first successful update of `init`) -/
 inductive Reach : St → Prop where
   | init : Reach init
-  | update {s : St} (d : String) (o : Opts) (f : List String) (r : String → Bool) (order : List String) :
-      Reach s → Reach (update s d o f r order).1
+  | update {s : St} (d : String) (o : Opts) (f : List String) (r : String → Bool) (dl : Int) :
+      Reach s → Reach (update s d o f r dl).1
   | pstate {s : St} (e : String) (a : Bool) : Reach s → Reach (notifyAll s e a)
   | close {s : St} : Reach s → Reach (close s)
 
@@ -86,57 +86,110 @@ theorem mem_validEndpoints {opts : Opts} {n : String} {l : List String} {e : Str
   apply List.mem_flatten.mpr
   exact ⟨l, List.mem_map.mpr ⟨(n, some l), hp, rfl⟩, he⟩
 
-theorem g_update {s : St} (h : G s) (d : String) (o : Opts) (f : List String) (r : String → Bool) (order : List String) :
-    G (update s d o f r order).1 := by
+/-- telling a MultiEndpoint about endpoints keeps it reachable and changes no endpoint's identity -/
+theorem tellOwn_reach (r : String → Bool) (l : List String) : ∀ (me : ME.St), ME.Reach me → ME.Reach (tellOwn r l me) := by
+  unfold tellOwn
+  induction l with
+  | nil => intro me h; exact h
+  | cons e rest ih => intro me h; exact ih _ (ME.Reach.stepRaw (.setAvail e (r e)) h)
+
+theorem tellOwn_ids (r : String → Bool) (l : List String) : ∀ (me : ME.St),
+    ∀ ep ∈ (tellOwn r l me).eps, ∃ y ∈ me.eps, ep.id = y.id := by
+  unfold tellOwn
+  induction l with
+  | nil => intro me ep hep; exact ⟨ep, hep, rfl⟩
+  | cons e rest ih =>
+    intro me ep hep
+    simp only [List.foldl_cons] at hep
+    obtain ⟨y1, hy1, e1⟩ := ih _ ep hep
+    obtain ⟨y, hy, e2⟩ := ME.opSetAvail_ids me e (r e) y1 hy1
+    exact ⟨y, hy, e1.trans e2⟩
+
+/-- an entry of valid options configures a reachable MultiEndpoint whose endpoints all come from the
+    entry's (non-empty) list -/
+theorem configure_spec {s : St} (h : G s) (dl : Int) {p : String × Option (List String)} {q : String × ME.St}
+    (hne : (match p.2 with | some l => !l.isEmpty | none => false) = true) (hc : configure s dl p = some q) :
+    ∃ l, p.2 = some l ∧ l ≠ [] ∧ q.1 = p.1 ∧ ME.Reach q.2 ∧ ∀ e ∈ q.2.eps, e.id ∈ l := by
+  unfold configure at hc
+  cases hq2 : p.2 with
+  | none => rw [hq2] at hne; cases hne
+  | some l =>
+    rw [hq2] at hne hc
+    have hlne : l ≠ [] := by simpa using hne
+    simp only at hc
+    cases hfm : findME s p.1 with
+    | some me =>
+      rw [hfm] at hc
+      simp only [Option.some.injEq] at hc
+      subst hc
+      exact ⟨l, rfl, hlne, rfl, ME.api_step_reach (.setEndpoints l) (h.meReach _ (findME_mem hfm)),
+        ME.api_setEndpoints_ids_sub me l hlne⟩
+    | none =>
+      rw [hfm] at hc
+      cases hin : ME.init 0 dl l with
+      | none => rw [hin] at hc; cases hc
+      | some me =>
+        rw [hin] at hc
+        simp only [Option.map_some, Option.some.injEq] at hc
+        subst hc
+        exact ⟨l, rfl, hlne, rfl, ME.api_init_reach hin, ME.api_init_ids_sub hin⟩
+
+/-- … and every entry of valid options does configure one -/
+theorem configure_isSome (s : St) (dl : Int) {p : String × Option (List String)}
+    (hne : (match p.2 with | some l => !l.isEmpty | none => false) = true) : (configure s dl p).isSome = true := by
+  unfold configure
+  cases hq2 : p.2 with
+  | none => rw [hq2] at hne; cases hne
+  | some l =>
+    rw [hq2] at hne
+    simp only
+    cases hfm : findME s p.1 with
+    | some me => rfl
+    | none =>
+      cases l with
+      | nil => simp at hne
+      | cons first rest =>
+        simp only [Option.isSome_map]
+        exact ME.api_init_isSome 0 dl first rest
+
+/-- what the new table of an accepted update consists of -/
+theorem new_mes_spec {s : St} (h : G s) (dl : Int) (o : Opts) (r : String → Bool)
+    (hall : ∀ x ∈ o, (match x.2 with | some l => !l.isEmpty | none => false) = true) :
+    ∀ p ∈ (o.filterMap fun p => (configure s dl p).map fun q => (q.1, tellOwn r (p.2.getD []) q.2)),
+      ∃ l me0, (p.1, some l) ∈ o ∧ l ≠ [] ∧ ME.Reach me0 ∧ (∀ e ∈ me0.eps, e.id ∈ l) ∧ p.2 = tellOwn r l me0 := by
+  intro p hp
+  obtain ⟨x, hx, hxp⟩ := List.mem_filterMap.mp hp
+  cases hc : configure s dl x with
+  | none => rw [hc] at hxp; cases hxp
+  | some q =>
+    rw [hc] at hxp
+    simp only [Option.map_some, Option.some.injEq] at hxp
+    obtain ⟨l, hl, hlne, hq1, hreach, hsub⟩ := configure_spec h dl (hall x hx) hc
+    subst hxp
+    refine ⟨l, q.2, ?_, hlne, hreach, hsub, by simp [hl]⟩
+    simp only [hq1, ← hl]
+    exact hx
+
+theorem g_update {s : St} (h : G s) (d : String) (o : Opts) (f : List String) (r : String → Bool) (dl : Int) :
+    G (update s d o f r dl).1 := by
   unfold update
   by_cases hv : optsValid d o = true
   · simp only [hv, Bool.not_true, Bool.false_eq_true, ↓reduceIte]
     split
     · exact h
-    · apply g_foldl_notify
-      unfold optsValid at hv
+    · unfold optsValid at hv
       simp only [Bool.and_eq_true, List.any_eq_true, List.all_eq_true] at hv
       obtain ⟨⟨pd, hpd, hpdn⟩, hall⟩ := hv
-      -- every entry of the new table comes from an option entry with a non-empty list
-      have hmes : ∀ p ∈ (o.filterMap fun p => match p.2 with
-            | none => none
-            | some l => match findME s p.1 with
-              | some me => some (p.1, (ME.step me (.setEndpoints l)).1)
-              | none => (ME.init 0 0 l).map fun me => (p.1, me)),
-          ∃ l, (p.1, some l) ∈ o ∧ l ≠ [] ∧ ME.Reach p.2 ∧ ∀ e ∈ p.2.eps, e.id ∈ l := by
-        intro p hp
-        obtain ⟨q, hq, hqp⟩ := List.mem_filterMap.mp hp
-        have hql := hall q hq
-        cases hq2 : q.2 with
-        | none => rw [hq2] at hql; cases hql
-        | some l =>
-          rw [hq2] at hql hqp
-          have hlne : l ≠ [] := by simpa using hql
-          simp only at hqp
-          have hqmem : (q.1, some l) ∈ o := by rw [← hq2]; exact hq
-          cases hfm : findME s q.1 with
-          | some me =>
-            rw [hfm] at hqp
-            simp only [Option.some.injEq] at hqp
-            subst hqp
-            exact ⟨l, hqmem, hlne, ME.api_step_reach (.setEndpoints l) (h.meReach _ (findME_mem hfm)),
-              ME.api_setEndpoints_ids_sub me l hlne⟩
-          | none =>
-            rw [hfm] at hqp
-            cases hin : ME.init 0 0 l with
-            | none => rw [hin] at hqp; cases hqp
-            | some me =>
-              rw [hin] at hqp
-              simp only [Option.map_some, Option.some.injEq] at hqp
-              subst hqp
-              exact ⟨l, hqmem, hlne, ME.api_init_reach hin, ME.api_init_ids_sub hin⟩
+      have hmes := new_mes_spec h dl o r hall
       constructor
       · intro p hp
-        obtain ⟨l, _, _, hr, _⟩ := hmes p hp
-        exact hr
+        obtain ⟨l, me0, _, _, hr, _, hp2⟩ := hmes p hp
+        rw [hp2]; exact tellOwn_reach r l me0 hr
       · intro _ p hp x hx
-        obtain ⟨l, hlo, _, _, hsub⟩ := hmes p hp
-        have hxl := hsub x hx
+        obtain ⟨l, me0, hlo, _, _, hsub, hp2⟩ := hmes p hp
+        rw [hp2] at hx
+        obtain ⟨y, hy, hxy⟩ := tellOwn_ids r l me0 x hx
+        have hxl : x.id ∈ l := hxy ▸ hsub y hy
         have hxv : x.id ∈ validEndpoints o := mem_validEndpoints hlo hxl
         -- a valid endpoint has a pool: it had one, or it was dialled now
         simp only [List.mem_filter, List.mem_append, List.contains_eq_mem, decide_eq_true_eq, Bool.not_eq_eq_eq_not, Bool.not_true, decide_eq_false_iff_not]
@@ -146,35 +199,17 @@ theorem g_update {s : St} (h : G s) (d : String) (o : Opts) (f : List String) (r
         · exact Or.inr ⟨hxv, hin⟩
       · intro _
         -- the default name has options, hence an entry in the new table
-        have hpd2 := hall pd hpd
-        cases hq2 : pd.2 with
-        | none => rw [hq2] at hpd2; cases hpd2
-        | some l =>
-          have hdn : pd.1 = d := by simpa using hpdn
-          rw [hq2] at hpd2
-          have hlne : l ≠ [] := by simpa using hpd2
-          -- its entry in the new table
-          have hentry : ∃ me', (pd.1, me') ∈ (o.filterMap fun p => match p.2 with
-              | none => none
-              | some l => match findME s p.1 with
-                | some me => some (p.1, (ME.step me (.setEndpoints l)).1)
-                | none => (ME.init 0 0 l).map fun me => (p.1, me)) := by
-            cases hfm : findME s pd.1 with
-            | some me =>
-              refine ⟨(ME.step me (.setEndpoints l)).1, List.mem_filterMap.mpr ⟨pd, hpd, ?_⟩⟩
-              simp only [hq2, hfm]
-            | none =>
-              cases l with
-              | nil => exact absurd rfl hlne
-              | cons first rest =>
-                cases hin : ME.init 0 0 (first :: rest) with
-                | none => have := ME.api_init_isSome 0 0 first rest; rw [hin] at this; cases this
-                | some me' =>
-                  refine ⟨me', List.mem_filterMap.mpr ⟨pd, hpd, ?_⟩⟩
-                  simp only [hq2, hfm, hin, Option.map_some]
-          obtain ⟨me', hme'⟩ := hentry
-          rw [hdn] at hme'
-          exact exists_findME (s := { s with mes := _, pools := _, dials := _, closed := _, defaultName := d, alive := true }) hme'
+        have hdn : pd.1 = d := by simpa using hpdn
+        have hsome := configure_isSome s dl (hall pd hpd)
+        cases hc : configure s dl pd with
+        | none => rw [hc] at hsome; cases hsome
+        | some q =>
+          obtain ⟨l, _, _, hq1, _, _⟩ := configure_spec h dl (hall pd hpd) hc
+          have hentry : (d, tellOwn r (pd.2.getD []) q.2) ∈
+              (o.filterMap fun p => (configure s dl p).map fun q => (q.1, tellOwn r (p.2.getD []) q.2)) := by
+            refine List.mem_filterMap.mpr ⟨pd, hpd, ?_⟩
+            simp [hc, hq1, hdn]
+          exact exists_findME (s := { s with mes := _, pools := _, dials := _, closed := _, defaultName := d, alive := true }) hentry
   · have : optsValid d o = false := by simpa using hv
     simp only [this, Bool.not_false, ↓reduceIte]
     exact h
@@ -185,7 +220,7 @@ theorem g_close {s : St} (h : G s) : G (close s) :=
 theorem reach_g {s : St} (h : Reach s) : G s := by
   induction h with
   | init => exact ⟨fun p hp => by simp [init] at hp, fun hal => by simp [init] at hal, fun hal => by simp [init] at hal⟩
-  | update d o f r order _ ih => exact g_update ih d o f r order
+  | update d o f r dl _ ih => exact g_update ih d o f r dl
   | pstate e a _ ih => exact g_notify ih e a
   | close _ ih => exact g_close ih
 
